@@ -1,6 +1,6 @@
 """C04 — the population stack is a faithful LIFO stack of populations."""
 from core import expr_str, AnchorMissing
-from absint import Interp, Sym, Agg, TOP, some, NONE, std_oracle, chain
+from absint import Interp, Sym, Agg, Ref, HRef, TOP, some, NONE, std_oracle, chain
 
 EXPLANATION = (
     "Finite-domain abstract interpretation (K6) of every method of `Populations` and of the RotatePopulations "
@@ -20,98 +20,57 @@ PK = POP + "::"
 
 
 class StackModel:
-    """oracle over a list of population symbols kept in interp.mstate['stack']"""
+    """The population stack's inner Vec, kept in interp.mstate['stack'] (a tuple of population values) and operated
+    on through the general collection model: every Vec / slice operation the real code applies to `self.stack` is
+    answered by collmodel on a heap vector that mirrors the tuple; unknown operations are TOP (undecided)."""
+    VID = "__stack"
 
     def __init__(self, stack_field):
         self.stack_field = stack_field
 
     def __call__(self, interp, env, f, args, t, bb, path):
-        k = f.get("key", "")
-        nm = f.get("name")
-        a0 = args[0] if args else TOP
-        if isinstance(a0, Sym) and a0.tag == "stack":
-            st = list(interp.mstate.get("stack", ()))
-            if k == "alloc::vec::Vec::len" or k == "[T]::len":
-                return len(st)
-            if k in ("alloc::vec::Vec::is_empty", "[T]::is_empty"):
-                return len(st) == 0
-            if k == "alloc::vec::Vec::push":
-                interp.mstate["stack"] = tuple(st + [args[1]])
-                return Agg("tuple", None, None, [])
-            if k == "alloc::vec::Vec::pop":
-                if st:
-                    interp.mstate["stack"] = tuple(st[:-1])
-                    return some(st[-1])
-                return NONE
-            if k in ("[T]::last", "[T]::last_mut"):
-                return some(st[-1]) if st else NONE
-            if k in ("[T]::first", "[T]::first_mut"):
-                return some(st[0]) if st else NONE
-            if k in ("[T]::get", "[T]::get_mut"):
-                i = args[1]
-                if isinstance(i, int) and not isinstance(i, bool):
-                    return some(st[i]) if 0 <= i < len(st) else NONE
-                return TOP
-            if k in ("core::ops::index::Index::index", "core::ops::index::IndexMut::index_mut"):
-                i = args[1]
-                if isinstance(i, int) and not isinstance(i, bool):
-                    return st[i] if 0 <= i < len(st) else "DIVERGE"
-                if isinstance(i, Agg) and i.name in ("core::ops::range::Range", "core::ops::range::RangeFrom", "core::ops::range::RangeTo", "core::ops::range::RangeInclusive"):
-                    vals = i.fields
-                    if i.name == "core::ops::range::Range":
-                        lo, hi = vals
-                    elif i.name == "core::ops::range::RangeFrom":
-                        lo, hi = vals[0], len(st)
-                    elif i.name == "core::ops::range::RangeTo":
-                        lo, hi = 0, vals[0]
-                    else:
-                        lo, hi = vals[0], (vals[1] + 1 if isinstance(vals[1], int) else TOP)
-                    if not (isinstance(lo, int) and isinstance(hi, int)):
-                        return TOP
-                    if lo > hi or hi > len(st) or lo < 0:
-                        return "DIVERGE"
-                    return Sym("slice:%d:%d" % (lo, hi))
-                return TOP
-            if k in ("[T]::iter", "[T]::iter_mut", "alloc::vec::Vec::clear", "alloc::vec::Vec::truncate", "alloc::vec::Vec::insert", "alloc::vec::Vec::remove",
-                     "alloc::vec::Vec::swap_remove", "[T]::swap", "[T]::reverse", "[T]::sort", "alloc::vec::Vec::drain", "core::clone::Clone::clone", "[T]::to_vec"):
-                interp.mstate["unmodelled"] = interp.mstate.get("unmodelled", ()) + (k,)
-                return TOP
-            if k in ("[T]::rotate_right", "[T]::rotate_left"):
-                lo, hi = 0, len(st)
-                return self.rotate(interp, st, lo, hi, args[1], k.endswith("right"))
-        if isinstance(a0, Sym) and a0.tag.startswith("slice:"):
-            _, lo, hi = a0.tag.split(":")
-            lo, hi = int(lo), int(hi)
-            st = list(interp.mstate.get("stack", ()))
-            if k in ("[T]::rotate_right", "[T]::rotate_left"):
-                return self.rotate(interp, st, lo, hi, args[1], k.endswith("right"))
-            if k == "[T]::len":
-                return hi - lo
-            interp.mstate["unmodelled"] = interp.mstate.get("unmodelled", ()) + (k,)
-            return TOP
-        if k in ("usize::checked_sub",) and all(isinstance(x, int) and not isinstance(x, bool) for x in args[:2]):
-            return some(args[0] - args[1]) if args[0] >= args[1] else NONE
-        if k in ("usize::checked_add",) and all(isinstance(x, int) and not isinstance(x, bool) for x in args[:2]):
-            return some(args[0] + args[1])
-        if k in ("usize::saturating_sub",) and all(isinstance(x, int) and not isinstance(x, bool) for x in args[:2]):
-            return max(0, args[0] - args[1])
-        if k == "core::option::Option::expect" or k == "core::option::Option::unwrap":
-            pass
-        return TOP
+        from collmodel import coll_oracle, Vec, heap_set, heap_get
 
-    @staticmethod
-    def rotate(interp, st, lo, hi, kk, right):
-        if not (isinstance(kk, int) and not isinstance(kk, bool)):
+        def mine(a, d=0):
+            if isinstance(a, Sym) and a.tag == "stack":
+                return True
+            if isinstance(a, (Vec, HRef)) and a.vid == self.VID:
+                return True
+            if isinstance(a, Ref) and d < 3:
+                try:
+                    return mine(interp.read_ref(env, a), d + 1)
+                except Exception:
+                    return False
+            return False
+        if not any(mine(a) for a in args):
             return TOP
-        w = hi - lo
-        if kk > w:
-            return "DIVERGE"
-        seg = st[lo:hi]
-        if w:
-            kk = kk % w
-            seg = (seg[-kk:] + seg[:-kk]) if right else (seg[kk:] + seg[:kk])
-        interp.mstate["stack"] = tuple(st[:lo] + seg + st[hi:])
-        return Agg("tuple", None, None, [])
+        heap_set(interp, self.VID, interp.mstate.get("stack", ()))
+
+        def conv(a, d=0):
+            if isinstance(a, Sym) and a.tag == "stack":
+                return Vec(self.VID, True)
+            if isinstance(a, Ref) and d < 3:
+                tgt = interp.read_ref(env, a)
+                if isinstance(tgt, Sym) and tgt.tag == "stack":
+                    return Vec(self.VID, True)
+            return a
+        r = coll_oracle(interp, env, f, [conv(a) for a in args], t, bb, path)
+        interp.mstate["stack"] = tuple(heap_get(interp, self.VID))
+        a0 = conv(args[0]) if args else None
+        if r is TOP and isinstance(a0, Vec) and a0.vid == self.VID:
+            interp.mstate["unmodelled"] = interp.mstate.get("unmodelled", ()) + (f.get("key", ""),)
+        return r
+
+
+def resolve(p, v, depth=0):
+    """follow element references into the modelled stack / heap of a finished path"""
+    while isinstance(v, HRef) and depth < 4:
+        items = p.mstate.get("stack", ()) if v.vid == StackModel.VID else p.mstate.get("heap", {}).get(v.vid, ())
+        v = items[v.idx] if v.idx < len(items) else TOP
+        depth += 1
+    if isinstance(v, Agg) and v.variant == "Some" and v.fields and isinstance(v.fields[0], HRef):
+        return Agg(v.kind, v.name, v.variant, [resolve(p, v.fields[0], depth + 1)])
+    return v
 
 
 def mk_self(stack_field):
@@ -196,9 +155,9 @@ def r1(ctx):
                         bad.append((h, a, "applies %s to the stack" % (p.mstate["unmodelled"],)))
                     elif p.end == "return":
                         if may_panic:
-                            bad.append((h, a, "returns %s where a plain stack has nothing to return" % (val(p.ret),)))
-                        elif val(p.ret) != want_ret or got_stack != want_stack:
-                            bad.append((h, a, "returns %s leaving %s; a plain stack returns %s leaving %s" % (val(p.ret), got_stack, want_ret, want_stack)))
+                            bad.append((h, a, "returns %s where a plain stack has nothing to return" % (val(resolve(p, p.ret)),)))
+                        elif val(resolve(p, p.ret)) != want_ret or got_stack != want_stack:
+                            bad.append((h, a, "returns %s leaving %s; a plain stack returns %s leaving %s" % (val(resolve(p, p.ret)), got_stack, want_ret, want_stack)))
                     elif p.end in ("panic", "diverge"):
                         if not may_panic:
                             bad.append((h, a, "panics"))
